@@ -15,13 +15,14 @@ Reference models (written here, independent of prysm):
 * Bayer: the colour of site (i, j) is a function of (i%2, j%2) and the CFA string; every operator is
   rebuilt from that function.  Malvar kernels are transcribed from Malvar/He/Cutler 2004, fig. 2.
 """
+import contextlib
 import itertools
 
 import numpy as np
 
 from mc import ScopeUnit, FAILED
 from mc.linalg import operator_matrix, dense
-from mc.state import noise_free
+from mc.state import noise_free, reset_executors
 
 from prysm import detector, bayer
 
@@ -55,6 +56,8 @@ def ref_expose(img, P):
     """(lo, hi, regime) per pixel: admissible DN band and the regime of the reference value."""
     dark = P['dc'] * T_EXP * (P['dcnu'] if P['dcnu'] is not None else 1.0)
     e = img * T_EXP + dark
+    if P.get('int_counts'):
+        e = np.rint(e)          # the typed seam hands back integer counts, like numpy's poisson
     pr = P['prnu'] if P['prnu'] is not None else 1.0
     x = e * pr + P['bias']
     mag = np.abs(e * pr) + abs(P['bias'])
@@ -138,6 +141,100 @@ def run_expose(case, seed, R):
                 break
     R.nontrivial(True)
     R.outcome('exposed')
+
+
+# ---------------------------------------------------------------------------------------------
+# parameter forms and precision: a seam that returns the SAME dtypes as numpy's generators
+
+class _TypedRandom:
+    """numpy.random stand-in: poisson -> int64 counts equal to round(mean), normal -> float64 equal to loc."""
+
+    def poisson(self, lam=1.0, size=None):
+        out = np.rint(np.asarray(lam, dtype=float)).astype(np.int64)
+        return np.broadcast_to(out, size if size is not None else out.shape).copy()
+
+    def normal(self, loc=0.0, scale=1.0, size=None):
+        return np.full(size if size is not None else np.shape(loc), float(loc), dtype=np.float64)
+
+    def __getattr__(self, k):
+        return getattr(np.random, k)
+
+
+class _TypedProxy:
+    def __init__(self, real):
+        self._real = real
+        self.random = _TypedRandom()
+
+    def __getattr__(self, k):
+        return getattr(self._real, k)
+
+
+@contextlib.contextmanager
+def noise_free_typed():
+    from prysm import mathops
+    real = mathops.np._srcmodule
+    mathops.np._srcmodule = _TypedProxy(real)
+    try:
+        yield
+    finally:
+        mathops.np._srcmodule = real
+
+
+def run_expose_forms(case, seed, R):
+    from prysm.conf import config
+    bits, prec, bias, rn, maps, fwc, gain, frames = (case[k] for k in ('bits', 'prec', 'bias', 'read_noise', 'maps', 'fwc', 'gain', 'frames'))
+    shape = (2, 4)
+    dcnu = nu_map(maps, shape)
+    prnu = nu_map(maps, shape)
+    dc = 0.0 if dcnu is None else 2.0
+    P = dict(bits=bits, gain=gain, bias=bias, fwc=fwc, dcnu=dcnu, prnu=prnu, dc=dc, int_counts=True)
+    cap = 2 ** bits - 1
+    want_dtype = np.uint8 if bits <= 8 else np.uint16 if bits <= 16 else np.uint32
+    want_shape = shape if frames == 1 else (frames, *shape)
+    sigs = signal_alphabet(bits, gain, bias, fwc)
+    n = shape[0] * shape[1]
+    mixed = np.array([sigs[(5 * j + 1) % len(sigs)] for j in range(n)]).reshape(shape)
+    cell = f'prec{prec}' if prec == 32 else ('rn0' if rn == 0 else 'forms')
+    outs = []
+    config.precision = prec
+    try:
+        det = detector.Detector(dark_current=dc, read_noise=rn, bias=bias, fwc=fwc, conversion_gain=gain, bits=bits, exposure_time=T_EXP, prnu=prnu, dcnu=dcnu)
+        with noise_free_typed():
+            for k, im in enumerate([np.full(shape, v) for v in sigs] + [mixed]):
+                out = R.call(det.expose, im / T_EXP, frames, sig=f'expose:{cell}:exception')
+                if out is FAILED:
+                    return
+                try:
+                    out = np.asarray(out)
+                    ok = out.shape == want_shape and out.dtype == want_dtype
+                except Exception:   # noqa
+                    ok = False
+                if not R.expect(ok, f'expose:{cell}:shape-dtype', f'{getattr(out, "shape", None)} {getattr(out, "dtype", None)} != documented {want_shape} {np.dtype(want_dtype)}'):
+                    return
+                dn = out.astype(np.int64).reshape((frames, *shape))
+                lo, hi, regime = ref_expose(im / T_EXP, P)
+                R.expect(dn.min() >= 0 and dn.max() <= cap, f'expose:{cell}:range', f'DN outside [0, {cap}]: max {dn.max()} (bits={bits}, precision={prec})')
+                bad = (dn < lo) | (dn > hi)
+                R.checks += 1
+                if bad.any():
+                    i = tuple(int(v) for v in np.argwhere(bad)[0])
+                    R.violation(f'expose:{cell}:value:{regime[i[1:]]}',
+                                f'DN {dn[i]} at frame/pixel {i}, reference {lo[i[1:]]}..{hi[i[1:]]} (bits={bits} precision={prec} gain={gain} bias={bias!r} read_noise={rn} '
+                                f'fwc={fwc!r} maps={maps} e-={im[i[1:]]}; {int(bad.sum())} pixels wrong)')
+                if k < len(sigs):
+                    outs.append((dn, regime))
+    finally:
+        config.precision = 64
+    for a in range(len(outs)):
+        for b in range(a + 1, len(outs)):
+            darker = outs[b][0] < outs[a][0]
+            R.checks += 1
+            if darker.any():
+                i = tuple(int(v) for v in np.argwhere(darker)[0])
+                R.violation(f'expose:{cell}:monotone:{outs[b][1][i[1:]]}', f'signal {sigs[b]} e- reads {outs[b][0][i]} DN, the darker {sigs[a]} e- reads {outs[a][0][i]} DN (bits={bits} precision={prec})')
+                break
+    R.nontrivial(True)
+    R.outcome(cell)
 
 
 LAYOUTS = ('C', 'F', 'T-view', 'strided', 'reversed')
@@ -665,6 +762,9 @@ def plan(tier, seed):
     expose_cases += [{'bits': b, 'gain': g, 'bias': bi, 'fwc': fw, 'frames': fr, 'dcnu': dn, 'prnu': pn, 'shape': list(sh)}
                      for dn in (None, 'ramp') for pn in (None, 'ramp') for b in (1, 8, 12, 16, 32) for g in (1.0, 3.7) for bi in (0, 10, -5)
                      for fw in (1e3, 1e12) for fr in (1, 3) for sh in DEGENERATE]
+    forms_cases = [{'bits': b, 'prec': pr, 'bias': bi, 'read_noise': rn, 'maps': mp, 'fwc': fw, 'gain': g, 'frames': fr}
+                   for pr in (64, 32) for b in (8, 12, 16, 24, 25, 31, 32) for bi in (0, 10, 10.0, -5) for rn in (0, 0.0, 3.0) for mp in (None, 'ramp')
+                   for fw in (1000, 1000.75, 10 ** 12, 1e12 + 0.5) for g in (0.25, 1.0, 3.7) for fr in (1, 3)]
     layout_cases = [{'bits': b, 'gain': g, 'frames': fr, 'maps': mp, 'maps_too': mt, 'shape': list(sh), 'layout': lay}
                     for lay in LAYOUTS for sh in ((2, 4), (3, 3), (4, 6), (5, 2)) + DEGENERATE for b in (8, 12, 16, 32) for g in (1.0, 3.7) for fr in (1, 3)
                     for mp, mt in ((None, False), ('ramp', False), ('ramp', True))]
@@ -704,6 +804,10 @@ def plan(tier, seed):
                   'x image shape {(2,4),(3,3)}, plus the unit-axis shapes {(1,1),(1,2),(2,1),(1,5),(5,1)} on bits {1,8,12,16,32} x gain {1,3.7} x maps {None, ramp}; per configuration one uniform exposure for every signal in {0,0.4,1,c-1,c,c+1,10c (c = (2^bits-1)*gain and fwc, also shifted by the bias), 2^bits*gain, 1e13} '
                   'plus one image mixing them; noise-free via the mathops backend shim; oracle: shape, dtype, range, reference model (band of one DN only where x/gain is within 8 eps of an integer), '
                   'monotone over ALL ordered signal pairs per pixel and frame'),
+        ScopeUnit('expose_forms', forms_cases, run_expose_forms,
+                  'config.precision {64, 32} x bits {8,12,16,24,25,31,32} x bias {int 0, int 10, float 10.0, int -5} x read_noise {int 0, 0.0, 3.0} x prnu/dcnu {None, ramp maps} x fwc {int 1000, 1000.75, int 10^12, 1e12+0.5} '
+                  'x gain {0.25, 1 (exact), 3.7 (inexact)} x frames {1,3}, image (2,4); the noise-free seam returns the dtypes of the real generators (poisson -> int64 = round(mean), normal -> float64); '
+                  'the full ceiling signal alphabet (unsaturated, at full well, ADC-saturated) against the reference model: shape, dtype, range, value band, monotone over all ordered pairs', reset=lambda: reset_executors(64)),
         ScopeUnit('expose_layout', layout_cases, run_expose_layout,
                   'aerial-image memory layout {C, Fortran, transposed view, strided slice of a larger frame, negative strides} x shapes {(2,4),(3,3),(4,6),(5,2)} and unit-axis shapes {(1,1),(1,2),(2,1),(1,5),(5,1)} x bits {8,12,16,32} '
                   'x gain {1,3.7} x frames {1,3} x non-uniformity maps {None, ramp in C order, ramp in the same layout}: images whose pixels all differ (ramp into saturation, mixed ceiling alphabet) '
